@@ -1,7 +1,8 @@
 // C17 — RHP contract constructors conserve funds and yield consensus-valid contracts.
 //
 //  0. Design level (spec/rhp/ContractsDesign.tla): the constructors and cost functions transcribed over
-//     BigNat; TLC checks every short lineage for all small parameter combinations against the rules.
+//     BigNat; TLC checks every short lineage for all small parameter combinations against the rules,
+//     and every order of four appends / frees of 1..3 sectors (capacity never decreases, filesize within it).
 //  1. TLC explores the skeleton model (spec/rhp/Contracts.tla): sequences of constructor calls
 //     New, Append, Free, Roots, Fund, Replenish, Renew, RefreshPartial, RefreshFull, each with a
 //     funding class (ample / exact / short by one hasting). It emits every skeleton of at most
@@ -237,7 +238,7 @@ func main() {
 		replay(c)
 		return
 	}
-	c.Rule("TLC emits skeletons (constructor kind x arguments x funding class sequences starting from New): all of length <= 2 (thorough 3), all of length 6 of the size/capacity focus (amply funded appends of 1..3 (thorough 1..4) sectors, frees of 1..filesize sectors, refreshes of contracts with free capacity, up to 6 (thorough 8) sectors stored), plus two seeded -simulate samples of length <= 6 (all variants; data operations favoured), de-duplicated. Each is executed once on the real rhp/v4 constructors with magnitude-stratified prices/parameters that pass the real Validate methods, boundary balances arranged from the real cost functions. One evaluation = one trace line: a constructor call with its cost functions and its submission(s) to the real ValidateV2Transaction, or one probe (an accepted result altered in one field and submitted), or one rhp/v2-v3 / allowance-limit line. Non-trivial = a line of a distinct skeleton (requests passed the real Validate) or a distinct independent line, validated by TLC without rejection.")
+	c.Rule("TLC emits skeletons (constructor kind x arguments x funding class sequences starting from New): all of length <= 2 (thorough 3), all of length 6 of the size/capacity focus (amply funded appends of 1..3 (thorough 1..4) sectors, frees of 1..filesize sectors, refreshes of contracts with free capacity, up to 4 (thorough 8) sectors stored), plus two seeded -simulate samples of length <= 6 (all variants; data operations favoured), de-duplicated. Each is executed once on the real rhp/v4 constructors with magnitude-stratified prices/parameters that pass the real Validate methods, boundary balances arranged from the real cost functions. One evaluation = one trace line: a constructor call with its cost functions and its submission(s) to the real ValidateV2Transaction, or one probe (an accepted result altered in one field and submitted), or one rhp/v2-v3 / allowance-limit line. Non-trivial = a line of a distinct skeleton (requests passed the real Validate) or a distinct independent line, validated by TLC without rejection.")
 	c.Assume("BigNat (cross-checked against TLC integers by spec/lib/BigNatTest in C15) is the arithmetic oracle")
 	c.Assume("signatures, element proofs and key continuity are produced honestly by the harness (real signing code, real accumulator); the transcribed consensus rules cover amounts, sizes, heights and revision numbers")
 	c.Assume("magnitudes: prices < 2^70, allowances/collateral < 2^110, sector batches <= 3*2^15, durations < 2^17 blocks: no Currency overflow inside the constructors or Validate (overflow there panics by design of types.Currency)")
@@ -258,6 +259,23 @@ func main() {
 	c.Cov("design_model_steps", ds.Generated)
 	if ds.Generated < 2000 {
 		c.Fatal("vacuity: design model explored only %d steps", ds.Generated)
+	}
+
+	// 1c. design level, capacity bookkeeping: NewContract, appends / frees of 1..3 sectors in every order, then a
+	// renewal / refresh: capacity never decreases, filesize stays within it, every revision passes the
+	// transcribed consensus rules; and the plan really contains frees followed by smaller appends
+	dz := c.MustTLC(vlib.TLCOpts{SpecDirs: []string{specDir}, Module: "ContractsDesign", Config: "ContractsDesignSizes.cfg", Workers: 8, Timeout: 10 * time.Minute})
+	c.Cov("design_model_sizes_states", dz.Distinct)
+	c.Cov("design_model_sizes_steps", dz.Generated)
+	if dz.Generated < 3000 {
+		c.Fatal("vacuity: design model (sizes) explored only %d steps", dz.Generated)
+	}
+	wz, err := c.TLC(vlib.TLCOpts{SpecDirs: []string{specDir}, Module: "ContractsDesign", Config: "ContractsDesignSizesReach.cfg", Workers: 4, NoCount: true, Timeout: 10 * time.Minute})
+	if err != nil {
+		c.Fatal("design model (sizes) reachability: %v", err)
+	}
+	if wz.Violated != "NeverPartialRefill" {
+		c.Fatal("vacuity: the design model (sizes) has no append of fewer sectors than were freed (TLC did not refute NeverPartialRefill: %q)\n%s", wz.Violated, vlib.Tail(wz.Out, 1200))
 	}
 
 	// 2. skeletons: exhaustive short ones + seeded sample of long ones
@@ -323,7 +341,7 @@ func main() {
 	c.Cov("skeletons_enumerated", nEnum)
 	c.Cov("skeletons_size_focus", nSizes)
 	c.Cov("skeletons_size_focus_with_append_smaller_than_free_space", modelSmaller)
-	if nSizes < 1000 || modelSmaller < nSizes/10 {
+	if nSizes < 500 || modelSmaller < nSizes/10 {
 		c.Fatal("vacuity: %d skeletons of the size focus, %d of them append fewer sectors than are free", nSizes, modelSmaller)
 	}
 	c.Cov("skeletons_simulated_distinct", len(simSk))
